@@ -267,8 +267,7 @@ fn inside(a: Rg, b: Rg) -> bool {
 
 #[derive(Default, Debug, Clone)]
 struct Shape {
-    /// `return`/`break`/`continue` lexically inside a list / tuple / interpolated string of the same
-    /// function (for `break`/`continue`: of the same loop)                        — F-C05-5
+    /// `break`/`continue` lexically inside a list / tuple / interpolated string of the same loop — F-C05-5
     jump_in_builder: bool,
     /// `break`/`continue` lexically inside the try block of a `try` that is inside the loop — F-C05-6
     jump_in_try: bool,
@@ -314,11 +313,7 @@ fn shape_of(ast: &Ast) -> Shape {
             inside(j, *b) && j != *b && !scopes.iter().any(|sc| sc.iter().any(|s| inside(j, *s) && inside(*s, *b) && *s != *b))
         })
     };
-    for j in &returns {
-        if crosses(*j, &builders, &[&funcs]) {
-            sh.jump_in_builder = true;
-        }
-    }
+    let _ = &returns; // `return` inside a literal is harmless since fix 97373d1 (the VM discards the builder)
     for j in &loop_jumps {
         if crosses(*j, &builders, &[&funcs, &loops]) {
             sh.jump_in_builder = true;
@@ -807,6 +802,73 @@ fn gen_capture_program(rng: &mut Rng) -> String {
     s
 }
 
+/// A function / generator whose *last* statement is a `return` / `return x` / `break` / `continue` /
+/// `throw` / `yield`, nested 1..=3 deep in blocks without an else path (former F-C05-7: the implicit
+/// Return was dropped and control ran past the end of the unit).
+fn gen_tail_program(rng: &mut Rng) -> String {
+    let depth = 1 + rng.below(3);
+    let wrappers: Vec<usize> = (0..depth).map(|_| rng.below(10)).collect();
+    let has_loop = wrappers.iter().any(|w| (1..=4).contains(w));
+    let is_gen = rng.chance(1, 4);
+    let terminal = match rng.below(7) {
+        0 => "return".to_string(),
+        1 => "return c".to_string(),
+        2 if has_loop => "break".to_string(),
+        3 if has_loop => "continue".to_string(),
+        4 => "throw 'tail'".to_string(),
+        5 if is_gen => "yield c".to_string(),
+        _ => "return".to_string(),
+    };
+    let mut s = String::from("f = |c, n|\n");
+    for _ in 0..rng.below(3) {
+        s.push_str("  n += 1\n");
+    }
+    if is_gen && !terminal.starts_with("yield") {
+        s.push_str("  yield n\n");
+    }
+    let mut ind = 1;
+    for w in &wrappers {
+        let pad = "  ".repeat(ind);
+        match w {
+            0 => s.push_str(&format!("{}if c\n", pad)),
+            1 => s.push_str(&format!("{}for i{} in 0..2\n", pad, ind)),
+            2 => s.push_str(&format!("{}while c\n", pad)),
+            3 => s.push_str(&format!("{}until not c\n", pad)),
+            4 => s.push_str(&format!("{}loop\n{}  if not c then break\n", pad, pad)),
+            5 => {
+                s.push_str(&format!("{}match c\n{}  true then\n", pad, pad));
+                ind += 1;
+            }
+            6 => {
+                s.push_str(&format!("{}switch\n{}  c then\n", pad, pad));
+                ind += 1;
+            }
+            7 => s.push_str(&format!("{}try\n", pad)),
+            8 => s.push_str(&format!("{}try\n{}  n += 1\n{}  if c then throw 'x'\n{}catch e{}\n", pad, pad, pad, pad, ind)),
+            _ => s.push_str(&format!("{}if n > 100\n{}  n = 0\n{}else if c\n", pad, pad, pad)),
+        }
+        ind += 1;
+    }
+    s.push_str(&format!("{}{}\n", "  ".repeat(ind), terminal));
+    // close the try wrappers (a try needs its catch)
+    let mut level = ind;
+    for w in wrappers.iter().rev() {
+        level -= 1;
+        if *w == 5 || *w == 6 {
+            level -= 1;
+        }
+        if *w == 7 {
+            s.push_str(&format!("{}catch e{}\n{}  n += 2\n", "  ".repeat(level), level, "  ".repeat(level)));
+        }
+    }
+    if is_gen {
+        s.push_str("r = []\nfor x in f(false, 0)\n  r.push x\ntry\n  for x in f(true, 0).take(3)\n    r.push x\ncatch e\n  r.push 'e'\nr\n");
+    } else {
+        s.push_str("a = f(false, 0)\nb = try\n  f(true, 0)\ncatch e\n  'e'\na, b\n");
+    }
+    s
+}
+
 /// Loops and try blocks nested up to five deep in every order, with `break` / `continue` (and
 /// `return` in functions) at the innermost position: try depth 0..=3 at the jump, nested loops
 /// inside try, try inside loop inside try, jumps in catch and finally blocks (former F-C05-6).
@@ -1054,6 +1116,67 @@ fn scaled_programs(rng: &mut Rng, fine: bool) -> Vec<(String, String)> {
     }
     // small `loop`s of every shape are always fine
     v.push(("loop-small".into(), format!("n = 0\nloop\n{}  if n > 3 then break\n", filler(30, 1, "n"))));
+    v
+}
+
+/// Register pressure: fill the frame's register file to every level 236..=255 (by locals, by call
+/// arguments, by nested temporaries), then compile each construct that allocates registers in batches
+/// or on demand. Oracle: well-formed code or a compile error, never a panic (former F-C05-8).
+fn pressure_programs() -> Vec<(String, String)> {
+    let exprs: Vec<(&str, &str)> = vec![
+        ("list0", "[]"), ("list1", "[a]"), ("list2", "[a, a]"), ("list3", "[a, a, a]"), ("list9", "[a, 1, 2, 3, 4, 5, 6, 7, 8]"),
+        ("tuple0", "()"), ("tuple1", "(a,)"), ("tuple2", "(a, a)"), ("tuple9", "(a, 1, 2, 3, 4, 5, 6, 7, 8)"),
+        ("nested-lists", "[[a, a], [a, [a, a]]]"),
+        ("map0", "{}"), ("map1", "{k: a}"), ("map3", "{k: a, l: a, m: [a, a]}"),
+        ("str1", "'{a}'"), ("str3", "'x{a}y{a:>5}z{a + 1}'"), ("str-nested", "'{[a, a]}{'{a}'}'"),
+        ("call1", "g(a)"), ("call3", "g(a, a, a)"), ("call-nested", "g(g(g(a), a), [a, a])"), ("call-packed", "g(a, a...)"),
+        ("chain", "a.x.y(a).z[a]"), ("chain-call", "a.foo(a, a).bar(a)"), ("range", "(a..a + 1)"), ("range-list", "[a..a, a..=a]"),
+        ("arith", "a + a * (a - a) / a"), ("cmp-chain", "a < a <= a"), ("logic", "a and (a or [a, a])"),
+        ("if-expr", "(if a then [a, a] else (a, a))"), ("fn", "(|x, y| [x, y, a])"), ("neg-not", "(-a, not a)"),
+    ];
+    let stmts: Vec<(&str, &str)> = vec![
+        ("match-tuple", "match a\n    (x, y) then x\n    (x, ...) then [x, a]\n    else a"),
+        ("match-multi", "match a, a\n    0, 1 then a\n    x, (y, z) if x then [y, z]"),
+        ("for-args", "for x, y, z in a\n    [x, y, z]"),
+        ("for-nested", "for x in a\n    for y, z in x\n      [x, y, z]"),
+        ("unpack", "p, q, r = a"), ("unpack-list", "p, q = [a, a], (a, a)"), ("unpack-call", "p, q = g(a, a)"),
+        ("multi-assign-temp", "p, q = a, a"), ("try", "try\n    [a, a]\n  catch e\n    (e, a)"),
+        ("while", "while [a, a]\n    break"), ("switch", "switch\n    a then [a, a]\n    else (a, a)"),
+        ("compound", "a += [a, a].size()"), ("index-assign", "a[a] = [a, a]"), ("access-assign", "a.k = (a, a)"),
+        ("export-map", "export {k: a, l: [a, a]}"), ("import", "from string import to_number, to_upper"), ("debug", "debug [a, a]"),
+        ("let-hint", "let t: List = [a, a]"), ("yield", "yield [a, a]"), ("return-list", "return [a, a]"), ("throw", "throw [a, a]"),
+    ];
+    let mut v = vec![];
+    for level in 236..=255usize {
+        // (a) locals: the function has `level - 2` own locals + `a`, `g` as arguments: temporary_base = 1 + level
+        let mut head = String::from("f = |a, g|\n");
+        for i in 0..level.saturating_sub(2) {
+            head.push_str(&format!("  x{} = 0\n", i));
+        }
+        for (name, e) in &exprs {
+            v.push((format!("pressure-locals-{}:{}", level, name), format!("{}  r = {}\n  r\n", head, e)));
+        }
+        for (name, st) in &stmts {
+            v.push((format!("pressure-locals-{}:{}", level, name), format!("{}  {}\n  a\n", head, st)));
+        }
+        // (b) call arguments: `level - 3` preceding arguments in temporaries
+        let pre: Vec<String> = (0..level.saturating_sub(3)).map(|i| (i % 10).to_string()).collect();
+        // (c) nested temporaries: `level - 3` pending left operands
+        for (name, e) in &exprs {
+            v.push((format!("pressure-args-{}:{}", level, name), format!("f = |a, g|\n  g({}, {})\n", pre.join(", "), e)));
+            let mut s = String::from("f = |a, g|\n  r = ");
+            let depth = level.saturating_sub(3);
+            for _ in 0..depth {
+                s.push_str("1 + (");
+            }
+            s.push_str(e);
+            for _ in 0..depth {
+                s.push(')');
+            }
+            s.push_str("\n  r\n");
+            v.push((format!("pressure-nest-{}:{}", level, name), s));
+        }
+    }
     v
 }
 
@@ -1359,6 +1482,20 @@ fn worker_main() {
             (_, Outcome::CompileError(_)) => "compile-error".into(),
             (_, Outcome::Panic(_, _)) => "compile-panic".into(),
             ("c", Outcome::Ok(b)) => format!("ok {:x} {:x} {:x} {:x}", b.bytes_h, b.consts_h, b.raw_h, b.norm_h),
+            ("v", Outcome::Ok(b)) => {
+                let settings = koto_runtime::KotoVmSettings { execution_limit: Some(Duration::from_millis(500)), ..Default::default() };
+                let chunk = b.chunk.clone();
+                match kvh::catch(move || {
+                    let mut vm = koto_runtime::KotoVm::with_settings(settings);
+                    match vm.run(chunk) {
+                        Ok(v) => format!("value {}", kvh::canon::value(&v)),
+                        Err(e) => format!("error {}", e.to_string().replace(' ', "_").replace('\n', "/").chars().take(120).collect::<String>()),
+                    }
+                }) {
+                    Ok(s) => s,
+                    Err(p) => format!("panic {}@{}", p.replace(' ', "_").chars().take(80).collect::<String>(), last_panic_loc()),
+                }
+            }
             ("r", Outcome::Ok(b)) => {
                 let settings = koto_runtime::KotoVmSettings { execution_limit: Some(Duration::from_millis(60)), ..Default::default() };
                 let chunk = b.chunk.clone();
@@ -1506,6 +1643,10 @@ impl Ctx {
                         Reply::Ok(s) => {
                             let k = s.split(' ').next().unwrap_or("?").to_string();
                             self.rep.bump(&format!("run:{}", k));
+                            if k == "panic" && self.rep.notes.len() < 60 {
+                                self.rep.note(format!("run panicked (not an internal-fault kind of C05; see C06): {} — {}", origin, s));
+                                self.rep.sample(json!({"origin": origin, "program": src, "run": s}));
+                            }
                             if k == "fault" {
                                 self.rep.violation("D", "C05:internal-fault-at-run-time", json!({"origin": origin, "program": src, "input_hex": kvh::hex(src.as_bytes()), "fault": s}));
                             }
@@ -1742,6 +1883,20 @@ fn token_mutants(src: &str, rng: &mut Rng, cap: usize) -> Vec<(String, String)> 
     out
 }
 
+/// Must-pass behavioural cases of repaired findings: (name, program, canonical value of the program).
+fn behaviour_cases() -> Vec<(&'static str, String, String)> {
+    let s = |x: &str| format!("value s{}", kvh::hex(x.as_bytes()));
+    vec![
+        ("F-C05-5(return in interpolation, 97373d1)", "f = ||\n  x = '{1}{return 2}'\n  x\n'a{f()}b'\n".into(), s("a2b")),
+        ("F-C05-5(return in list, 97373d1)", "f = ||\n  [[1, 2], (return 5)]\nx = [10, f(), 30]\n'{x}'\n".into(), s("[10, 5, 30]")),
+        ("builder open when an error is caught (97373d1)", "f = ||\n  try\n    'p{throw 1}'\n  catch _\n    'q'\nr = try\n  [1, (throw 'x')]\ncatch e\n  'c'\n'a{f()}b{r}{[7, 8]}'\n".into(), s("aqbc[7, 8]")),
+        ("F-C05-4(unused function literal, 30b24e7)", "|| 42\nfor i in 0..2\n  |x| x + i\n'hello'\n".into(), s("hello")),
+        ("F-C05-6(break out of try, 0e9e81b)", "r = []\nfor x in (1, 2)\n  try\n    break\n  catch e\n    r.push 'caught'\ntry\n  throw 'boom'\ncatch e2\n  r.push 'outer {e2}'\n'{r}'\n".into(), s("['outer boom']")),
+        ("F-C05-6(continue out of nested try)", "n = 0\nfor x in 0..3\n  try\n    try\n      n += 1\n      continue\n    catch a\n      n += 100\n  catch b\n    n += 1000\ntry\n  throw 'z'\ncatch c\n  n += 10\nn\n".into(), "value i13".into()),
+        ("F-C05-7(bare return nested in a block, aad4e1c)", "f = |c|\n  if c\n    return\ng = |c|\n  for i in 0..2\n    if c\n      return\n'{f false}{f true}{g false}'\n".into(), s("nullnullnull")),
+    ]
+}
+
 fn witnesses(id: &str) -> Vec<String> {
     match id {
         "F-C05-1" => vec![witness_big_loop()],
@@ -1754,7 +1909,17 @@ fn witnesses(id: &str) -> Vec<String> {
             s
         }],
         "F-C05-4" => vec!["|| 42\nprint 'hello'\n".into()],
-        "F-C05-5" => vec!["f = ||\n  x = '{1}{return 2}'\n  x\nprint 'a{f()}b'\n".into(), "for x in (1, 2)\n  y = [1, (if x == 1 then continue), 3]\n".into()],
+        "F-C05-5" => vec!["for x in (1, 2)\n  y = [1, (if x == 1 then continue), 3]\n".into(), "r = ''\nfor x in (1, 2)\n  r = 'a{x}{if x == 1 then break}'\nr\n".into()],
+        "F-C05-7" => vec!["f = |c|\n  if c\n    return\nprint f false\n".into()],
+        "F-C05-8" => vec![{
+            // 253 locals, then a two-element list: available_registers_count() == 0
+            let mut s = String::from("f = ||\n");
+            for i in 0..253 {
+                s.push_str(&format!("  x{} = 0\n", i));
+            }
+            s.push_str("  y = [1, 2]\n  y\n");
+            s
+        }],
         "F-C05-6" => vec!["for x in (1, 2)\n  try\n    break\n  catch e\n    print 'caught {e}'\nthrow 'boom'\n".into()],
         _ => vec![],
     }
@@ -1774,7 +1939,7 @@ fn real_main() -> i32 {
     install_panic_hook();
     let args = Args::parse();
     let mut rep = Report::new("C05", &args);
-    rep.rule = "cases = programs handed to the real compiler (repository scripts, documentation examples, their single-token delete/duplicate/swap neighbours, seeded generated programs, loop x try-block nestings with break/continue/return, capture-heavy programs (also compiled in two fresh processes each), size-scaled programs at the u8/u16 limits) plus register-allocator histories; every compiled chunk goes through wfChunk and the decoder correspondence, and is compiled again in this process and in a child process; distinct = distinct source texts / histories; non-trivial = chunk with at least 4 instructions, or a history with at least 3 operations".into();
+    rep.rule = "cases = programs handed to the real compiler (repository scripts, documentation examples, their single-token delete/duplicate/swap neighbours, seeded generated programs, loop x try-block nestings with break/continue/return, functions ending in a nested jump, register-pressure x construct grid, capture-heavy programs (also compiled in two fresh processes each), size-scaled programs at the u8/u16 limits) plus register-allocator histories; every compiled chunk goes through wfChunk and the decoder correspondence, and is compiled again in this process and in a child process; distinct = distinct source texts / histories; non-trivial = chunk with at least 4 instructions, or a history with at least 3 operations".into();
     let open: Vec<String> = rep.known_open().iter().filter_map(|e| e.get("id").and_then(|x| x.as_str()).map(|s| s.to_string())).collect();
     let drv = Driver::spawn(&args.driver);
     let worker = Worker::spawn(&["--worker".to_string()]);
@@ -1789,7 +1954,7 @@ fn real_main() -> i32 {
         known_counts: Default::default(),
         programs: 0,
         disagreements_checked: 0,
-        run_budget: if thorough { 24000 } else { 1000 },
+        run_budget: if thorough { 32000 } else { 1500 },
         sampled: vec![],
     };
     let mut rng = Rng::new(args.seed);
@@ -1862,6 +2027,14 @@ fn real_main() -> i32 {
     }
     cx.flush();
 
+    // 2a'. functions ending in a nested jump (former F-C05-7)
+    let n_tail = if thorough { 8000 } else { 500 };
+    for i in 0..n_tail {
+        let src = gen_tail_program(&mut rng);
+        cx.submit(&format!("tail:{}", i), &src, true);
+    }
+    cx.flush();
+
     // 2b. capture-heavy programs: additionally compiled in two fresh processes each
     let n_cap = if thorough { 1500 } else { 120 };
     for i in 0..n_cap {
@@ -1898,6 +2071,13 @@ fn real_main() -> i32 {
     }
     cx.flush();
 
+    // 3b. register pressure x constructs (former F-C05-8)
+    for (label, src) in pressure_programs() {
+        let compiled = cx.submit(&label, &src, false);
+        let kind = label.split(':').next().unwrap_or("?").rsplit_once('-').map(|x| x.0.to_string()).unwrap_or_default();
+        cx.rep.bump(&format!("{}={}", kind, if compiled { "compiled" } else { "rejected" }));
+    }
+    cx.flush();
     cx.rep.note(format!("phase scaled done at {:.1}s", t0.elapsed().as_secs_f64()));
     // 4. (K) register allocator histories
     let n_frame = if thorough { 100000 } else { 3000 };
@@ -1945,6 +2125,24 @@ fn real_main() -> i32 {
     run_batch(&mut cx, &mut batch);
 
     cx.rep.note(format!("phase allocator done at {:.1}s", t0.elapsed().as_secs_f64()));
+    // 4b. behavioural must-pass cases of the repaired findings
+    for (name, prog, expect) in behaviour_cases() {
+        cx.submit(&format!("behaviour:{}", name), &prog, false);
+        let got = match cx.worker.request(&format!("v {}", kvh::hex(prog.as_bytes())), Duration::from_secs(20)) {
+            Reply::Ok(s) => s,
+            Reply::Timeout => "timeout".into(),
+            Reply::Died(x) => format!("died {}", x),
+        };
+        cx.rep.case(&format!("behaviour {}", name), true);
+        if got != expect {
+            cx.rep.violation("D", "C05:behaviour", json!({"case": name, "program": prog, "input_hex": kvh::hex(prog.as_bytes()), "expected": expect, "observed": got,
+                "note": "a repaired finding's must-pass case does not behave as specified"}));
+        } else {
+            cx.rep.bump("behaviour=ok");
+        }
+    }
+    cx.flush();
+
     // 5. listed findings: replay the witnesses
     for e in cx.rep.known_entries() {
         let Some(id) = e.get("id").and_then(|x| x.as_str()).map(|s| s.to_string()) else { continue };
@@ -1972,6 +2170,7 @@ fn real_main() -> i32 {
                         let r = cx.drv.ask(&format!("wf {} {}", kvh::hex(&b.chunk.bytes), const_kinds(&b.chunk)));
                         if r == "ok" { None } else { Some(format!("compiles; wfChunk: {}", r)) }
                     }
+                    Outcome::Panic(m, l) => Some(format!("compiler panic `{}` at {}", m, l)),
                     _ => None,
                 },
             };
